@@ -105,12 +105,25 @@ def base_cov(parts, rule, spec_names):
 
 def trace_check(prop, tier, seed, sched, spec, cfg, *, level="model_checking", rule, assumptions,
                 serde=True, profile="dev", nshards=14, timeout=3000, deque=False, weight=None, extra_cov=None,
-                distinct_fn=None):
+                distinct_fn=None, second_spec=None, second_filter=None):
     t0 = time.time()
     events, cases, res = run_trace(prop, sched, spec, cfg, serde=serde, profile=profile, nshards=nshards,
                                    timeout=timeout, deque=deque, weight=weight)
     nviol = report_rejections(prop, res["rejected"], sched)
-    cov = base_cov([(events, cases, res)], rule, [spec.replace(".tla", "")])
+    parts = [(events, cases, res)]
+    names = [spec.replace(".tla", "")]
+    if second_spec:
+        # the same recorded executions, validated a second time against another trace specification
+        cases2 = [c for c in cases if second_filter is None or second_filter(c[1])]
+        if tier == "quick":
+            cases2 = cases2[::3]          # quick: every third recorded case; thorough: all of them
+        res2 = vlib.validate_cases(prop + "-2", second_spec + ".tla", second_spec + ".cfg", cases2, nshards=nshards, timeout=timeout,
+                                   weight=weight or default_weight)
+        nviol += report_rejections(prop, res2["rejected"], sched)
+        parts.append(([], cases2, res2))
+        names.append(second_spec)
+    cov = base_cov(parts, rule, names)
+    cov["events_recorded"] = len(events)
     if extra_cov:
         cov.update(extra_cov)
     vlib.write_evidence(prop, tier, seed, level, cov, assumptions, time.time() - t0, nviol)
@@ -300,6 +313,17 @@ def c05_schedule(tier, seed, mc):
         for kind in corpora.CLASS_KINDS[name]:
             for wi, w in enumerate(walks):
                 S.case("%s cover %s #%d" % (kind, name, wi), corpora.api_case_ops(kind, w, rng))
+            if not block:
+                # via-next types: every fill_bytes length once (the abstract graph has one or two nodes, so the
+                # cover says nothing about lengths beyond 25), in shuffled order, separated by next_u32/next_u64
+                lens = list(range(0, 90 if tier == "quick" else 600))
+                rng.shuffle(lens)
+                for lo in range(0, len(lens), 45):
+                    w = []
+                    for n in lens[lo:lo + 45]:
+                        w.append(("fill_bytes", n))
+                        w.append(rng.choice([("next_u32", 0), ("next_u64", 0), ("next_u32", 0)]))
+                    S.case("%s all lengths %d" % (kind, lo), corpora.api_case_ops(kind, w, rng))
             # seeded random interleavings
             nrand = (3 if tier == "quick" else 40)
             bb = {"Hc128": 64, "Isaac": 1024, "Isaac64": 2048}.get(name)
@@ -322,7 +346,8 @@ def check_C05(tier, seed):
              "mc_properties": ["TypeOK", "Refines (ApiImpl => Stream, the C05 statement)", "NoSkipNoRepeat"],
              "cover": stats, "mc_states_total": mc_states, "exhaustive": True,
              "exhaustive_scope": "the abstract API machines are explored completely for the real buffer lengths 16 and 256 (fill lengths: all 0..137 for len 16; classes around 0, 1 and 2 blocks for len 256; blocks <= 3); the conformance side is a transition cover plus seeded random interleavings on all 20 generator types"}
-    rc = trace_check("C05", tier, seed, S, "Trace_Stream.tla", "Trace_Stream.cfg",
+    rc = trace_check("C05", tier, seed, S, "Trace_Stream.tla", "Trace_Stream.cfg", second_spec="Trace_Full",
+                     second_filter=lambda evs: not any(ev.get("e") in ("jit_new", "timer") for ev in evs),
                      rule="TLC explores ApiImpl (BlockRng / BlockRng64 / via-next, as in the code) exhaustively and checks the refinement to Stream (C05 as a spec) on every transition; its state graph is turned into a transition cover (every selected (index, half, op, n) edge) that is executed on the real types next to an identically seeded twin driven with native calls only; Trace_Stream validates every returned byte against Stream instantiated with the twin's words. distinct = distinct recorded events",
                      assumptions=COMMON_ASSUME[:2] + ["the twin (same seed, native-width calls only) defines the native word stream, as in the property statement",
                                                      "rand_core's BlockRng/BlockRng64/impls are a dependency: modelled in ApiImpl and bound by conformance, not verified themselves"],
@@ -748,8 +773,34 @@ def check_C10(tier, seed):
     ev, cs, res = run_trace("C10b", S2, "Trace_Pair.tla", "Trace_Pair.cfg")
     parts.append((ev, cs, res))
     nviol += report_rejections("C10", res["rejected"], S2)
+    # third phase: soundness of the hand-written == on big states cannot be sampled by random pairs (a
+    # comparison that folds the state collides with probability 2^-32); the harness searches for two different
+    # seeds among n that compare equal, and any pair found is then driven in lock-step like every other pair
+    nsearch = 60000 if tier == "quick" else 200000
+    sops = [{"op": "reset"}]
+    for kind in ("Hc128Rng", "Hc128Core", "IsaacCore", "Isaac64Core"):
+        sops.append({"op": "eq_search", "kind": kind, "n": nsearch if kind.startswith("Hc") else nsearch // 4, "seed_len": 32, "threads": 14})
+    vlib.write_ndjson(sp, sops)
+    vlib.drive(vlib.build_harness("release", True), sp, tp, timeout=3000)     # optimised build: a folding == has no early exit
+    S3 = vlib.Sched()
+    searched = {}
+    for e in vlib.read_ndjson(tp):
+        if e.get("e") != "eq_search":
+            continue
+        searched[e["kind"]] = e.get("searched")
+        for a, b in e.get("pairs", []):
+            k = e["kind"]
+            sa, sb = list(a.to_bytes(8, "little")) + [0] * 24, list(b.to_bytes(8, "little")) + [0] * 24
+            ops = [{"op": "from_seed", "g": 1, "kind": k, "seed": sa}, {"op": "from_seed", "g": 2, "kind": k, "seed": sb}, {"op": "eq", "a": 1, "b": 2}]
+            ops += corpora.lockstep([("generate", 0), ("generate", 0)] if k.endswith("Core") else [("next_u32", 0), ("next_u64", 0), ("fill_bytes", 70)], [1, 2])
+            S3.case("%s seeds %d and %d compare equal" % (k, a, b), ops)
+    if S3.cases:
+        ev, cs, res = run_trace("C10c", S3, "Trace_Pair.tla", "Trace_Pair.cfg")
+        parts.append((ev, cs, res))
+        nviol += report_rejections("C10", res["rejected"], S3)
     cov = base_cov(parts, "clone at buffer positions taken from TLC's state graph of the API machine (every index of the 16-word buffer; a sample of the 256-word buffers in quick, all in thorough), then == and lock-step execution of original and clone across >= 1 refill with mixed next_u32/next_u64/fill_bytes and jump/long_jump; pairs built to be almost equal (one step apart, one seed bit apart, same block other read position, serde snapshots with exactly one field of an ISAAC core perturbed, IsaacArray pairs differing in one element). The monitor Trace_Pair rejects only observed contradictions: lock-step divergence inside a class formed by clone / == true, or == false inside such a class. distinct = distinct recorded events", ["Trace_Pair"])
     cov["mc_models"] = {n: {"states_generated": r["states"], "edges": len(e)} for n, (r, e) in mc.items() if n in ("Hc128", "Isaac", "Isaac64")}
+    cov["eq_collision_search"] = {"generators_compared_pairwise": searched, "pairs_found_equal": len(S3.cases)}
     cov["mc_models"]["CloneEq (two instances, Hc128Rng's hand-written ==: core and index)"] = {
         "states_generated": ce["states"], "distinct": ce["distinct"], "invariants": ["EqIsCongruence", "CloneIsEqual", "RestoreIsIdentical", "SerDoesNotDisturb"],
         "negative_control": "EqMode=core_only (index dropped) violates EqIsCongruence"}
